@@ -151,7 +151,10 @@ func TestC17_Enveloped(t *testing.T) {
 				k := gen.KeyPair(hx.Root()).Draw(t, "rk")
 				for _, o := range keys {
 					if o.D.Cmp(k.D) == 0 {
-						k = gen.Key{D: new(big.Int).Add(k.D, big.NewInt(int64(i+1))), Pub: cv.BaseMul(new(big.Int).Add(k.D, big.NewInt(int64(i+1))))}
+						// a distinct, valid replacement (d+i+1 can leave [1, n-2] when d is at the top of the range)
+						nd := new(big.Int).Add(k.D, big.NewInt(int64(i+1)))
+						nd.Mod(nd, new(big.Int).Sub(cv.N, big.NewInt(2))).Add(nd, big.NewInt(1))
+						k = gen.Key{D: nd, Pub: cv.BaseMul(nd)}
 					}
 				}
 				keys = append(keys, k)
